@@ -122,6 +122,51 @@ def run_funcs(cases):
     return out
 
 
+def run_maxdist(cases):
+    """pruning.maxDistanceBetween / visibilityBound on every ordered pair of objects of small compiled scenarios."""
+    import scenic
+    import scenic.syntax.translator as translator
+    from scenic.core import pruning
+    out = []
+    old = translator.usePruning
+    translator.usePruning = False
+    try:
+        for case in cases:
+            res = dict(id=case["id"])
+            try:
+                sc = scenic.scenarioFromString(case["src"])
+            except Exception as e:
+                res["compile_error"] = type(e).__name__ + ": " + str(e)[:160]
+                out.append(res)
+                continue
+            byname = {}
+            for o in sc.objects:
+                byname[getattr(o, "tag")] = o
+            objs = [byname[i] for i in range(len(sc.objects))]
+            res["ego"] = objs.index(sc.egoObject)
+            pairs = []
+            for i, a in enumerate(objs):
+                for j, b in enumerate(objs):
+                    if i == j:
+                        continue
+                    try:
+                        d = pruning.maxDistanceBetween(sc, a, b)
+                        r = "INF" if d == float("inf") else fl(d)
+                    except Exception as e:
+                        r = "EXC:" + type(e).__name__
+                    try:
+                        vb = pruning.visibilityBound(a, b)
+                        vb = None if vb is None else fl(vb)
+                    except Exception as e:
+                        vb = "EXC:" + type(e).__name__
+                    pairs.append([i, j, r, vb])
+            res["pairs"] = pairs
+            out.append(res)
+    finally:
+        translator.usePruning = old
+    return out
+
+
 def vec3(v):
     return [float(v.x), float(v.y), float(v.z)]
 
@@ -138,8 +183,10 @@ def run_program(case):
     # unpruned
     translator.usePruning = False
     random.seed(case["seed"]); numpy.random.seed(case["seed"])
+    t00 = time.time()
     try:
         unpruned = scenic.scenarioFromString(case["src"], mode2D=case.get("mode2D", False))
+        out["unpruned_compile_s"] = round(time.time() - t00, 2)
     except Exception as e:
         out["unpruned_error"] = type(e).__name__ + ": " + str(e)[:200]
         translator.usePruning = True
@@ -163,15 +210,34 @@ def run_program(case):
     translator.usePruning = True
     random.seed(case["seed"]); numpy.random.seed(case["seed"])
     t1 = time.time()
+
+    class CompileTimeout(BaseException):
+        pass
+
+    def on_alarm(signum, frame):
+        raise CompileTimeout()
+    import signal
+    limit = int(case.get("compile_limit", 30) + 20 * out.get("unpruned_compile_s", 0))
+    oldh = signal.signal(signal.SIGALRM, on_alarm)
+    signal.alarm(limit)
     try:
         pruned = scenic.scenarioFromString(case["src"], mode2D=case.get("mode2D", False))
+        signal.alarm(0)
+    except CompileTimeout:
+        out["pruned_timeout"] = limit
+        return out
     except InvalidScenarioError as e:
+        signal.alarm(0)
         out["pruned_error"] = type(e).__name__ + ": " + str(e)[:200]
         out["pruned_invalid"] = True
         return out
     except Exception as e:
+        signal.alarm(0)
         out["pruned_error"] = type(e).__name__ + ": " + str(e)[:200]
         return out
+    finally:
+        signal.alarm(0)
+        signal.signal(signal.SIGALRM, oldh)
     out["compile_s"] = round(time.time() - t1, 2)
     objs = []
     outside = []
@@ -247,6 +313,8 @@ def main():
         print(json.dumps(dict(results=run_matcher(payload["cases"]))))
     elif kind == "funcs":
         print(json.dumps(dict(results=run_funcs(payload["cases"]))))
+    elif kind == "maxdist":
+        print(json.dumps(dict(results=run_maxdist(payload["cases"]))))
     else:
         res = []
         for case in payload["cases"]:
